@@ -1,6 +1,7 @@
 mod ast;
 mod decode;
 mod gen;
+mod graph;
 mod machine;
 mod print;
 mod props;
